@@ -75,6 +75,13 @@ def history(rng, w, res, algo_cycle):
                 op.pop("size", None)
             ops.append(op)
             live.append(pid)
+        elif r < 0.70:
+            # a store that will be rejected (pid is live) with other content and other algorithms, then the digest
+            # of what the pid really names: values must not depend on the rejected call
+            pid = rng.choice(live)
+            ops.append({"op": "store", "pid": pid, "content": rng.choice(list(SPEC)), "kind": "path",
+                        "add": spelling(rng, next(algo_cycle))})
+            ops.append({"op": "hexdigest", "pid": pid, "algo": spelling(rng, rng.choice(ALL_ALGOS))})
         elif r < 0.85:
             ops.append({"op": "hexdigest", "pid": rng.choice(live), "algo": spelling(rng, next(algo_cycle))})
         else:
